@@ -523,7 +523,12 @@ func (p *c14) Run(ci any, env *core.Env) *core.Failure {
 					if got != nil {
 						g = append([]int(nil), got...)
 					}
-					run.report("onepass", "onepass.Search", "", h, at, aw, g)
+					if g == nil {
+						// callers (meta.findSubmatchAtWithState) treat nil as "no answer, fall back"
+						env.Count("declined", "onepass.Search(nil)")
+					} else {
+						run.report("onepass", "onepass.Search", "", h, at, aw, g)
+					}
 					run.report("onepass", "onepass.IsMatch", "", h, at, aw != nil, op.IsMatch(h))
 				}
 			})
